@@ -449,3 +449,8 @@ MUTANTS += [
     dict(name="revert_fix_pcovr_covariance_relative_rcond", prop=["C03", "C14"], file="src/skmatter/utils/_pcovr_utils.py", count=1,
          old="            rcond = rcond * max(1.0, vC[0])\n", new=""),
 ]
+
+MUTANTS += [
+    dict(name="revert_fix_cur_orthogonalize_relative_tol", prop="C07", file=SEL, count=1,
+         old="    return tol * max(1.0, np.linalg.norm(item))\n", new="    return selector.tolerance\n"),
+]
